@@ -19,6 +19,7 @@ import (
 	"bytes"
 	"fmt"
 	"os"
+	"runtime"
 	"sort"
 	"strings"
 	"time"
@@ -165,6 +166,14 @@ func init() {
 		e.journal = true
 		maxLen := e.j.Int("len", 4)
 		alphabet := []string{"Sa", "Sb", "Da", "Ea", "Pa", "La", "F", "C", "K"}
+		// scripted histories, longer than the enumerated ones: V is a finished read (it lets the read
+		// watermark, which is what compactions discard below, reach the latest commit)
+		for _, nvk := range []int{1, 100} {
+			for _, sc := range []string{"Sa,K,Da,V,F,C", "Sa,F,C,K,Da,V,F,C", "Sa,K,Pa,V,F,C", "Sa,Sb,K,Da,Sb,V,F,C,K,Sb"} {
+				nvk, s := nvk, strings.Split(sc, ",")
+				e.do(fmt.Sprintf("nvk%d/%s", nvk, sc), func() (string, string) { return c24Run(e, nvk, s) })
+			}
+		}
 		for _, nvk := range []int{1, 100} {
 			for l := 1; l <= maxLen; l++ {
 				nvk, l := nvk, l
@@ -324,6 +333,11 @@ func c24Run(e *enumCtx, nvk int, seq []string) (string, string) {
 				en.ExpiresAt = now + 100000
 				return txn.SetEntry(en)
 			})
+		case 'V':
+			_ = src.View(func(txn *Txn) error { return nil })
+			for i := 0; src.orc.readMark.DoneUntil() < src.orc.nextTs()-1 && i < 1000000; i++ {
+				runtime.Gosched()
+			}
 		case 'F':
 			lsmFlushNoBubble(src)
 		case 'C':
@@ -396,7 +410,31 @@ func c24Run(e *enumCtx, nvk int, seq []string) (string, string) {
 			return "backup-read-error", s
 		}
 		if c24VisStr(got) != c24VisStr(want) {
-			return "backup-" + name + "-state", fmt.Sprintf("%s restored to {%s}, the source shows {%s}\n  source versions: %s", name, c24VisStr(got), c24VisStr(want), c24VersStr(srcVers))
+			class := "backup-" + name + "-state"
+			if name == "chain" {
+				// known finding F23: the only difference is keys that the source has deleted / let
+				// expire after an earlier backup of the chain, where a compaction has already removed the
+				// delete marker (and everything below it), so no later incremental backup can carry it
+				onlyStale := true
+				for k, v := range want {
+					if g, ok := got[k]; !ok || g != v {
+						onlyStale = false
+					}
+				}
+				stale := 0
+				for k := range got {
+					if _, ok := want[k]; !ok {
+						stale++
+						if len(srcVers[k]) != 0 {
+							onlyStale = false // the source still holds versions of the key: the marker was there to be backed up
+						}
+					}
+				}
+				if onlyStale && stale > 0 {
+					class = "backup-chain-state/delete-compacted-away-before-the-next-incremental"
+				}
+			}
+			return class, fmt.Sprintf("%s restored to {%s}, the source shows {%s}\n  source versions: %s", name, c24VisStr(got), c24VisStr(want), c24VersStr(srcVers))
 		}
 		if versions && nvk > 1 {
 			exp := c24VersStr(c24ExpectVersions(srcVers))
